@@ -46,10 +46,13 @@ Proof.
   unfold zmem. pose proof (set_result_fold o) as S. unfold kfold in *. induction ws as [|x l IH]; cbn [fold_left existsb]; [reflexivity|].
   rewrite (Z.eqb_sym o x). destruct (x =? o); [rewrite S; reflexivity|exact IH].
 Qed.
+Definition gbf_of (f : bpart) : G_BetFulfillment :=
+  {| G_BetFulfillment_ParticipantAddress := f_owner f; G_BetFulfillment_ParticipationIndex := f_idx f;
+     G_BetFulfillment_BetAmount := f_stake f; G_BetFulfillment_PayoutProfit := f_pay f |}.
 Definition gb_of (b : bet) : G_Bet :=
   {| G_Bet_UID := b_uid b; G_Bet_MarketUID := b_mkt b; G_Bet_OddsUID := b_odds b; G_Bet_OddsValue := b_oddsval b; G_Bet_Amount := b_amount b;
      G_Bet_Fee := b_fee b; G_Bet_Status := b_status b; G_Bet_Result := b_result b; G_Bet_Creator := b_creator b; G_Bet_CreatedAt := b_created b;
-     G_Bet_SettlementHeight := b_sheight b; G_Bet_MaxLossMultiplier := b_mult b; G_Bet_BetFulfillment := zlen (b_parts b) |}.
+     G_Bet_SettlementHeight := b_sheight b; G_Bet_MaxLossMultiplier := b_mult b; G_Bet_BetFulfillment := map gbf_of (b_parts b) |}.
 (* settle_bet: "not declared => error", then won iff the bet's outcome is among the market's winners *)
 Lemma gen_SetResult b mk :
   K_Bet_SetResult (gb_of b) (gm_of mk) =
